@@ -38,6 +38,9 @@ def operand (s : Str) : Arg := { text := s, role := .operand, url := false }
 def urlOperand (s : Str) : Arg := { text := s, role := .operand, url := true }
 def urlValue (s : Str) : Arg := { text := s, role := .value, url := true }
 
+/-- The elements of a vector that come from the URL and are meant to be operands. -/
+def urlOperands (argv : List Arg) : List Arg := argv.filter fun a => a.url && a.role == .operand
+
 /-! ## pkg/ssh flag helpers -/
 
 def compressionFlag : Arg := opt "-C"
